@@ -65,7 +65,11 @@ func (its *jsonObject) putCommon(key string, value interface{}, ts *model.Timest
 			jsonElement: removed from NodeMap, not added to Cemetery.
 			jsonObject, jsonArray: remain in NodeMap, added to Cemetery.
 		*/
+		replacedNothing := removedJSON.isTomb() // the key had been deleted: there was no value to replace
 		its.funeral(removedJSON, putJSON.getCreateTime())
+		if replacedNothing {
+			return nil
+		}
 		return removedJSON
 	}
 	return nil
